@@ -418,6 +418,11 @@ class MenuConfigState:
     def _update_menu(self) -> None:
         sel_node = self.shown[self.sel_node_i]
         self.shown = self.shown_nodes(self.cur_menu)
+        if sel_node not in self.shown:
+            # The change made the selected row invisible (e.g. resetting an option its prompt depends
+            # on). Keep it on screen in show-all mode, as is done after loading a configuration.
+            self.show_all = True
+            self.shown = self.shown_nodes(self.cur_menu)
         self.sel_node_i = self.shown.index(sel_node)
 
     @staticmethod
